@@ -86,6 +86,8 @@ def evalStateless (tag : String) (a : List String) : Option (String × String) :
     -- a chain of n devices is transparent while the connections crossed (n + 1) do not exceed the server's TTL
     -- (Props.C09.deliver_iff along the chain); the test server answers "R:" ++ request
     if natArg n + 1 ≤ natArg ttl then some (toHexD ([0x52, 0x3a] ++ hexArg payload), "delivered") else some ("lost", "over-ttl")
+  | "dial.persist", [_, _] => some ("redials", "persist")   -- an open dialer whose attempt failed, however it failed, tries again (Props.C14)
+  | "opt.origin", [check] => some (if check == "true" then "refused" else "admitted", "origin")   -- the option in force is the policy applied
   | "opt.after", [_, _] => some ("received", "after")   -- a queue-length change never makes a connected peer's messages unreceivable
   | "mc.conflict", [_, k] => some (Macat.conflictVerdict (natArg k), "conflict")
   | "ws.enc", [h, b] =>
